@@ -216,6 +216,10 @@ def key_function_sites(ctx, only=None):
                         for a in ast.walk(m.node):
                             if isinstance(a, ast.Assign) and any(isinstance(t, ast.Name) and t.id == x.id for t in a.targets):
                                 exprs.append(a.value)
+                            elif isinstance(a, ast.Call) and isinstance(a.func, ast.Attribute) and a.func.attr in ("append", "extend", "insert", "add") and dotted(a.func.value) == x.id:
+                                exprs.extend(a.args)
+                            elif isinstance(a, ast.AugAssign) and dotted(a.target) == x.id:
+                                exprs.append(a.value)
         uses = [
             c
             for e in exprs
